@@ -24,6 +24,8 @@ def scenario(rng, again=None):
     for m in msgs:
         if not m['seg'] and rng.random() < 0.3:
             m['ucs'] = True
+    if any(m['react'] == 'reset' for m in msgs) and rng.random() < 0.6:
+        sc['stray'] = True
     if rng.random() < 0.2:
         sc['persist'] = True
         for m in msgs:
@@ -180,6 +182,14 @@ def run(sc):
             if r == 'reset':
                 # the link breaks while this PDU is on its way: the write went through, drain() raises
                 conn.reset()
+                if sc.get('stray'):
+                    # ... and the SMSC, which did get the PDU, answers it on the connection the ESME opens next
+                    def stray(seq=seq):
+                        live = [c for c in s.smsc.conns if not c.closed]
+                        if live:
+                            s.ev('stray-fed', seq)
+                            live[-1].feed(pdu(0x80000004, 0, seq, b'stray%d\x00' % seq))
+                    s.smsc.later(2.5, stray)
                 return
             delay = {'late': TTL + 1.5, 'slow': 1.0}.get(r, 0.0) + (seq % 1000) * 1e-6
             if r == 'nack':
@@ -436,9 +446,13 @@ def predicate13(sc, ev):
             seen_seq[e[4]] = e[0]
     seq_log = dict(sc.get('_seq_log', {}))
     answered = set()
+    stray = {e[2] for e in ev if e[1] == 'stray-fed'}
     for e in ev:
         if e[1] == 'received' and e[2] in ('SubmitSmResp', 'GenericNack') and e[4]:
             seq = struct.unpack('!I', e[3][12:16])[0]
+            if seq in stray:
+                return ('the response with sequence number %d, which answers a submit_sm whose transmission had failed (reported by '
+                        'send_error, never stored as outstanding), was attributed to message %s' % (seq, e[4]))
             if seq_log.get(seq) != e[4]:
                 return 'the response with sequence number %d was attributed to message %s; the request with that number belongs to %s' % (
                     seq, e[4], seq_log.get(seq))
